@@ -80,7 +80,8 @@ WirePage == {
   <<"rd_mailto", "none", "none">>, <<"rd_data_url", "none", "none">>,
   <<"px_idle_close", "none", "none">>, <<"ok_save_headers", "none", "none">>, <<"ok_output_document", "none", "none">>,
   <<"ok_adjust_extension", "none", "none">>, <<"ok_no_directories", "none", "none">>, <<"ok_timestamping", "none", "none">>,
-  <<"ok_no_clobber", "none", "none">>, <<"rd_new_directory", "none", "none">>, <<"ok_new_directory", "none", "none">>,
+  <<"ok_no_clobber", "none", "none">>, <<"ok_convert_links", "none", "none">>, <<"ok_page_requisites_convert", "none", "none">>,
+  <<"au_401_post", "none", "none">>, <<"rd_new_directory", "none", "none">>, <<"ok_new_directory", "none", "none">>,
   <<"ck_garbage", "none", "none">>, <<"ck_huge", "none", "none">>, <<"ck_port_garbage", "none", "none">>,
   <<"ct_garbage", "none", "none">>, <<"cs_unknown", "none", "none">>, <<"cs_nul", "none", "none">>,
   Fx("charset_codec", <<"cs_nontext_codec", "h_scrape_encoding", "LookupError">>, <<"cs_nontext_codec", "none", "none">>), Fx("charset_codec", <<"cs_meta_nontext_codec", "h_scrape_encoding", "LookupError">>, <<"cs_meta_nontext_codec", "none", "none">>),
